@@ -385,6 +385,8 @@ def unprotect_secret(body, passphrase):
         if s['spec'] == 101:
             info['gnu_dummy'] = True
             return pub, None, info
+        if cid not in CIPHERS:
+            raise DecryptError('secret key protected with cipher %d, which the reference does not implement' % cid)
         bs = CIPHERS[cid][2]
         iv = bytes(body[p:p + bs])
         info['iv'] = iv
